@@ -1,7 +1,112 @@
-import ConfModel.Driver.Common
-namespace ConfModel.Driver.C11
-open Lean ConfModel.Driver
+/-
+C11 driver.  One line = one fault script of a server batch plus what the real
+`runTestCasesForServer` did on it.
 
-def handle : Handler := fun op _inp _impl => bad ("C11: unknown op " ++ op)
+`agree` := outcome class per name, abort count, forwarded lines and side-band records equal the
+           model's (`ServerRunner.runBatch`, the function the theorems are about);
+`holds` := the property's predicates from `Spec/ServerRunner.lean` on the implementation's output:
+           returned in time, exactly the batch names have an outcome, `expectedOK` for every case,
+           `stoppedOK`, forwarded = `expectForwarded`, side-band = last `expectRecords` per name.
+-/
+import ConfModel.Driver.Common
+import ConfModel.Spec.ServerRunner
+namespace ConfModel.Driver.C11
+open Lean ConfModel.Driver ConfModel.ServerRunner
+
+def parseKind (k : String) : Option Kind :=
+  match k with
+  | "pass" => some .pass | "mismatch" => some .mismatch | "error" => some .error
+  | "neither" => some .neither | "noresult" => some .noresult | _ => none
+
+def parseCase (j : Json) : Option Case :=
+  let k := str (field j "k")
+  if k == "refuse" then some .refuse else (parseKind k).map (fun kd => .answer kd (bool (field j "async")))
+
+def parseResp (r : String) (cut len : Nat) : Option Resp :=
+  match r with
+  | "ok" => some .ok | "okcert" => some .okcert | "zero" => some .zero | "garbage" => some .garbage
+  | "oversize" => some .oversize | "overshort" => some .oversize | "limit" => some .limit | "cut" => some (.cut cut len) | "never" => some .never | _ => none
+
+def className : Class → String
+  | .pass => "pass" | .fail => "fail" | .setup => "setup" | .norun => "norun" | .noresult => "noresult"
+
+def parseClass (c : String) : Option Class :=
+  match c with
+  | "pass" => some .pass | "fail" => some .fail | "setup" => some .setup | "norun" => some .norun
+  | "noresult" => some .noresult | _ => none
+
+/-- last record per name, sorted by name -/
+def lastPerName (recs : List (String × String)) : List (String × String) :=
+  let names := asSet (recs.map (·.1))
+  names.filterMap fun n => (recs.reverse.find? (·.1 == n))
+
+def pairs (j : Json) : List (String × String) :=
+  (arr j).map fun p => match strList p with | [a, b] => (a, b) | _ => ("?", "?")
+
+def handle : Handler := fun op inp impl =>
+  match op with
+  | "batch" =>
+    let names := strList (field inp "names")
+    let n := names.length
+    let casesO := (arr (field inp "cases")).map parseCase
+    let respO := parseResp (str (field inp "resp")) (nat (field inp "cut")) (nat (field inp "respLen"))
+    if casesO.any Option.isNone || respO.isNone || casesO.length != n then bad "unparsable script" else
+    if names.eraseDups.length != n then bad "batch names not distinct" else
+    if !(isNull (field impl "panic")) then
+      { agree := false, holds := false, why := "panic: " ++ str (field impl "panic") } else
+    let diesI := int (field inp "dies")
+    let s : Script := {
+      cases := casesO.filterMap id, isRef := bool (field inp "isRef"), useTLS := bool (field inp "useTLS"),
+      startErr := str (field inp "start") == "err", writeErr := str (field inp "write") != "ok",
+      closeErr := str (field inp "close") == "err", resp := respO.getD .ok,
+      dies := if diesI < 0 then none else some diesI.toNat,
+      names := names.map String.toList, stderr := (str (field inp "stderr")).toList }
+    let out := runBatch s
+    -- model observation
+    let mFinal : List (String × String) := (List.range n).filterMap fun i =>
+      (out.log.reverse.find? (·.1 == i)).map fun e => (names.getD i "?", className e.2)
+    let mOutcomes := (mFinal.toArray.qsort (fun a b => a.1 < b.1)).toList
+    let mFw := out.forwarded.map String.ofList
+    let mSb := lastPerName (out.sideband.map fun (a, b) => (String.ofList a, String.ofList b))
+    -- implementation observation
+    let iOutcomes := pairs (field impl "outcomes")
+    let iFw := strList (field impl "forwarded")
+    let iSb := pairs (field impl "sideband")
+    let iAborts := nat (field impl "aborts")
+    let iStarted := bool (field impl "started")
+    let hang := bool (field impl "hang")
+    let badPrefix := nat (field impl "badPrefix")
+    let agree := !hang && iOutcomes == mOutcomes && iAborts == out.aborts && iStarted == out.started &&
+      iFw == mFw && iSb == mSb && badPrefix == 0
+    -- the property on the implementation's output
+    let keysOK := asSet (iOutcomes.map (·.1)) == asSet names && iOutcomes.length == n
+    let perCase := (List.range n).all fun i =>
+      match (iOutcomes.find? (·.1 == names.getD i "?")).bind (fun p => parseClass p.2) with
+      | some c => Spec.expectedOK s i c
+      | none => false
+    let stopped := Spec.stoppedOK iStarted iAborts
+    let lines := splitLines s.stderr []
+    let reads := s.isRef && !s.startErr
+    let namesOK := s.names.all Spec.noSep
+    let xFw := if reads then (Spec.expectForwarded s.names lines).map String.ofList else []
+    let xSb := if reads then lastPerName ((Spec.expectRecords s.names lines).map fun (a, b) => (String.ofList a, String.ofList b)) else []
+    let stderrOK := !namesOK || (iFw == xFw && iSb == xSb && badPrefix == 0)
+    let why :=
+      if hang then "runTestCasesForServer did not return within 15 s"
+      else if !keysOK then "outcomes recorded for " ++ toString (iOutcomes.map (·.1)) ++ ", batch is " ++ toString names
+      else if !perCase then "outcome classes " ++ toString iOutcomes ++ " contradict the fault script (set-up fault ⇒ all set-up errors; answered ⇒ own verdict; after the fault ⇒ set-up error)"
+      else if !stopped then s!"server started={iStarted} but abort was called {iAborts} time(s)"
+      else if !stderrOK then "stderr attribution: forwarded " ++ toString iFw ++ " side-band " ++ toString iSb ++ "; expected forwarded " ++ toString xFw ++ " side-band " ++ toString xSb
+      else ""
+    let holds := why == ""
+    { agree := agree, holds := holds,
+      nontrivial := Spec.setupFault s || Spec.stopIdx s.dies 0 s.cases < n || !out.sideband.isEmpty || !out.forwarded.isEmpty
+        || s.cases.any (fun c => match c with | .answer .pass _ => false | _ => true),
+      model := Json.mkObj [("outcomes", toJson (mOutcomes.map fun (a, b) => [a, b])), ("aborts", toJson out.aborts),
+        ("forwarded", toJson mFw), ("sideband", toJson (mSb.map fun (a, b) => [a, b]))],
+      why := if holds && !agree then "implementation differs from the model" else why,
+      cls := if Spec.setupFault s then "setup-fault" else if Spec.stopIdx s.dies 0 s.cases < n then
+        (if dead s.dies (Spec.stopIdx s.dies 0 s.cases) then "server-died" else "client-refused") else "complete" }
+  | _ => bad ("C11: unknown op " ++ op)
 
 end ConfModel.Driver.C11
